@@ -178,9 +178,10 @@ func genCase(rt *rapid.T) caseSpec {
 	c := caseSpec{proxied: rapid.Bool().Draw(rt, "proxied"), init: genConf(rt)}
 	n := rapid.IntRange(1, 15).Draw(rt, "nsteps")
 	for i := 0; i < n; i++ {
-		s := step{Kind: rapid.SampledFrom([]string{"setconf", "setconf", "announce", "want", "peer-out", "peer-in", "sleep", "sleep", "sleep"}).Draw(rt, "kind"), A: rapid.IntRange(0, 1000).Draw(rt, "a")}
+		s := step{Kind: rapid.SampledFrom([]string{"setconf", "setconf", "setconf", "announce", "announce", "want", "want", "peer-out", "peer-out", "peer-in", "peer-in", "sleep", "sleep", "sleep", "sleep",
+			"re-add", "swap", "peer-in-swap"}).Draw(rt, "kind"), A: rapid.IntRange(0, 1000).Draw(rt, "a")}
 		switch s.Kind {
-		case "setconf":
+		case "setconf", "re-add":
 			s.C = genConf(rt)
 		case "sleep":
 			s.D = rapid.SampledFrom([]time.Duration{time.Second, 25 * time.Second, 70 * time.Second, 29 * time.Minute, 60 * time.Minute}).Draw(rt, "d")
@@ -216,29 +217,23 @@ func run(c caseSpec) (fail string, labels map[string]bool, hist []string) {
 		config.DefaultDhtMode, config.DefaultUseTrackers, config.DefaultUseWebseeds = config.DhtNone, false, false
 		config.SetIdleRate(64 * 1024)
 	}()
+	proxied := c.proxied
 	proxy := ""
-	if c.proxied {
-		proxy = "socks5://" + proxyAddr
-	}
 	g := sim.Geometry{PieceSize: 16384, Length: 16384 * 6, Seed: 99, Name: "t"}
 	_, info, _, _ := sim.Metainfo(g)
+	ih := infoHash(info)
 	var mu sync.Mutex
 	var anns []annRec
 	var dhts []dhtRec
-	trk := [][]tracker.Tracker{{&fakeTracker{"http://tracker-a.example/announce", &mu, &anns}}, {&fakeTracker{"udp://tracker-b.example:6969", &mu, &anns}}}
-	ws := []webseed.Webseed{webseed.New("http://"+lnAddr+"/", true)}
+	build := func(prox string) (*tor.Torrent, error) {
+		trk := [][]tracker.Tracker{{&fakeTracker{"http://tracker-a.example/announce", &mu, &anns}}, {&fakeTracker{"udp://tracker-b.example:6969", &mu, &anns}}}
+		ws := []webseed.Webseed{webseed.New("http://"+lnAddr+"/", true)}
+		return tor.New(prox, ih, "", info, 0, trk, ws)
+	}
 	h := ref.Benc(0) // placeholder to keep the import used
 	_ = h
-	t, err := tor.New(proxy, infoHash(info), "", info, 0, trk, ws)
-	if err != nil {
-		return "tor.New: " + err.Error(), labels, nil
-	}
-	t.Log.SetOutput(nullWriter{})
-	if err := t.MetadataComplete(); err != nil {
-		return "MetadataComplete: " + err.Error(), labels, nil
-	}
 	tor.VerifAnnounceTap = func(hh hash.Hash, ipv6 bool, port uint16) {
-		if hh.Equal(t.Hash) {
+		if hh.Equal(ih) {
 			mu.Lock()
 			dhts = append(dhts, dhtRec{ipv6, port})
 			mu.Unlock()
@@ -247,17 +242,42 @@ func run(c caseSpec) (fail string, labels map[string]bool, hist []string) {
 	defer func() { tor.VerifAnnounceTap = nil }()
 	ctx, cancel := context.WithCancel(context.Background())
 	defer cancel()
-	if _, err := tor.AddTorrent(ctx, t); err != nil {
-		return "AddTorrent: " + err.Error(), labels, nil
+	var t *tor.Torrent
+	kill := func() {
+		if t != nil {
+			k, kc := context.WithTimeout(context.Background(), time.Minute)
+			defer kc()
+			t.Kill(k)
+			t = nil
+		}
 	}
-	sim.Cleanup(func() {
-		k, kc := context.WithTimeout(context.Background(), time.Minute)
-		defer kc()
-		t.Kill(k)
-	})
+	sim.Cleanup(kill)
+	// (re)creates the torrent, proxied or not, under the global defaults
+	create := func() string {
+		proxy = ""
+		if proxied {
+			proxy = "socks5://" + proxyAddr
+		}
+		nt, err := build(proxy)
+		if err != nil {
+			return "tor.New: " + err.Error()
+		}
+		nt.Log.SetOutput(nullWriter{})
+		if err := nt.MetadataComplete(); err != nil {
+			return "MetadataComplete: " + err.Error()
+		}
+		if _, err := tor.AddTorrent(ctx, nt); err != nil {
+			return "AddTorrent: " + err.Error()
+		}
+		t = nt
+		return ""
+	}
+	if f := create(); f != "" {
+		return f, labels, nil
+	}
 	K := c.init
 	describe := func() string {
-		return fmt.Sprintf("\nproxied=%v, initial %v, current %v; history: %v", c.proxied, c.init, K, hist)
+		return fmt.Sprintf("\nproxied=%v, initial %v, current %v; history: %v", proxied, c.init, K, hist)
 	}
 	// observe one step: returns what happened since the last call
 	type obs struct {
@@ -283,10 +303,10 @@ func run(c caseSpec) (fail string, labels map[string]bool, hist []string) {
 			return fmt.Sprintf("%s: %d tracker announce(s) although tracker use is disabled", what, len(o.anns)) + describe()
 		}
 		for _, a := range o.anns {
-			if c.proxied && (a.port4 != 0 || a.port6 != 0) {
+			if proxied && (a.port4 != 0 || a.port6 != 0) {
 				return fmt.Sprintf("%s: proxied torrent told a tracker its ports (%d, %d)", what, a.port4, a.port6) + describe()
 			}
-			if !c.proxied && (a.port4 != portTCP || a.port6 != portV6) {
+			if !proxied && (a.port4 != portTCP || a.port6 != portV6) {
 				return fmt.Sprintf("%s: tracker announce with ports (%d, %d), configured (%d, %d)", what, a.port4, a.port6, portTCP, portV6) + describe()
 			}
 			if a.proxy != proxy {
@@ -301,27 +321,52 @@ func run(c caseSpec) (fail string, labels map[string]bool, hist []string) {
 				return fmt.Sprintf("%s: DHT announce although the DHT mode is none", what) + describe()
 			}
 			wantPort := uint16(0)
-			if K.dht == config.DhtNormal && !c.proxied {
+			if K.dht == config.DhtNormal && !proxied {
 				wantPort = portUDP
 				if d.ipv6 {
 					wantPort = portV6
 				}
 			}
 			if d.port != wantPort {
-				return fmt.Sprintf("%s: DHT announce (ipv6=%v) advertises port %d, want %d (mode %v, proxied %v)", what, d.ipv6, d.port, wantPort, K.dht, c.proxied) + describe()
+				return fmt.Sprintf("%s: DHT announce (ipv6=%v) advertises port %d, want %d (mode %v, proxied %v)", what, d.ipv6, d.port, wantPort, K.dht, proxied) + describe()
 			}
 		}
 		return ""
 	}
 	// creation: AddTorrent announces to the DHT under the initial mode
-	o := take()
-	if f := check(o, "at creation"); f != "" {
+	created := func(what string) string {
+		o := take()
+		if f := check(o, what); f != "" {
+			return f
+		}
+		if K.dht != config.DhtNone && len(o.dhts) != 2 {
+			return fmt.Sprintf("%s: DHT mode %v but %d announces were made (want one per family)", what, K.dht, len(o.dhts)) + describe()
+		}
+		return ""
+	}
+	if f := created("at creation"); f != "" {
 		return f, labels, hist
 	}
-	if K.dht != config.DhtNone && len(o.dhts) != 2 {
-		return fmt.Sprintf("at creation: DHT mode %v but %d announces were made (want one per family)", K.dht, len(o.dhts)) + describe(), labels, hist
-	}
 	npeer := 0
+	var seeds []*sim.Remote // connected peers that have everything and never unchoke
+	// swap: the torrent is deleted and added again with the other proxy setting
+	swap := func(what string) string {
+		kill()
+		take()
+		proxied = !proxied
+		K = c.init
+		seeds = nil
+		delete(labels, "ws-backoff") // a new web-seed object: no failures yet
+		if f := create(); f != "" {
+			return f + describe()
+		}
+		if proxied {
+			labels["swapped to proxied"] = true
+		} else {
+			labels["swapped to unproxied"] = true
+		}
+		return created(what)
+	}
 	seen := map[string]bool{K.String(): true}
 	for _, s := range c.steps {
 		hist = append(hist, s.String())
@@ -358,6 +403,36 @@ func run(c caseSpec) (fail string, labels map[string]bool, hist []string) {
 			if g2.DhtMode != K.dht || g2.UseTrackers != K.trackers || g2.UseWebseeds != K.webseeds {
 				return fmt.Sprintf("%s: GetConf returns %+v", what, g2) + describe(), labels, hist
 			}
+		case "re-add":
+			// the same info-hash is submitted again (web UI, command line) while
+			// other global defaults are in force: the duplicate is refused, and
+			// nothing is done on its behalf
+			config.DefaultDhtMode, config.DefaultUseTrackers, config.DefaultUseWebseeds = s.C.dht, s.C.trackers, s.C.webseeds
+			dprox := proxy
+			if s.A%3 == 0 {
+				dprox = ""
+			}
+			dup, err := build(dprox)
+			if err != nil {
+				return "tor.New (duplicate): " + err.Error() + describe(), labels, hist
+			}
+			dup.Log.SetOutput(nullWriter{})
+			_, err = tor.AddTorrent(ctx, dup)
+			config.DefaultDhtMode, config.DefaultUseTrackers, config.DefaultUseWebseeds = c.init.dht, c.init.trackers, c.init.webseeds
+			if err == nil {
+				return what + ": a second torrent with the same info-hash was accepted" + describe(), labels, hist
+			}
+			if f := check(take(), what); f != "" {
+				return f, labels, hist
+			}
+			labels["duplicate-add"] = true
+			if K.dht == config.DhtNone && s.C.dht != config.DhtNone {
+				labels["duplicate-add under none, default not none"] = true
+			}
+		case "swap":
+			if f := swap(what); f != "" {
+				return f, labels, hist
+			}
 		case "announce":
 			tor.Announce(t.Hash, s.A%2 == 0)
 			o := take()
@@ -385,6 +460,19 @@ func run(c caseSpec) (fail string, labels map[string]bool, hist []string) {
 			if K.webseeds && o.ws == 0 && !labels["ws-backoff"] {
 				return fmt.Sprintf("%s: web seeds are enabled and a piece is wanted that no peer has, but no web-seed connection was made", what) + describe(), labels, hist
 			}
+			chokedSeeds := 0
+			for _, sr := range seeds {
+				if !sr.Closed() {
+					chokedSeeds++
+				}
+			}
+			if chokedSeeds > 0 {
+				if K.webseeds {
+					labels["want-with-choked-seed, web seeds on"] = true
+				} else {
+					labels["want-with-choked-seed, web seeds off"] = true
+				}
+			}
 			if K.webseeds {
 				labels["webseed-fetch-when-enabled"] = true
 				labels["ws-backoff"] = true // after failures the seed backs off; later absences are not failures
@@ -392,7 +480,7 @@ func run(c caseSpec) (fail string, labels map[string]bool, hist []string) {
 				labels["webseed-trigger-when-disabled"] = true
 			}
 			t.Request(uint32(s.A%6), 1, false, false)
-		case "peer-out", "peer-in":
+		case "peer-out", "peer-in", "peer-in-swap":
 			npeer++
 			before := len(tor.VerifPeers(t))
 			var r *sim.Remote
@@ -412,6 +500,17 @@ func run(c caseSpec) (fail string, labels map[string]bool, hist []string) {
 				srvConn := pipeConn{a, &net.TCPAddr{IP: net.IPv4(8, 8, 1, byte(npeer)), Port: 40000 + npeer}}
 				errc := make(chan error, 1)
 				go func() { errc <- tor.Server(srvConn, crypto.DefaultOptions(false, false)) }()
+				swapped := false
+				if s.Kind == "peer-in-swap" {
+					// the connection is accepted, and before the remote says anything
+					// the torrent is replaced by one with the other proxy setting
+					sim.Settle()
+					if f := swap(what); f != "" {
+						return f, labels, hist
+					}
+					before = len(tor.VerifPeers(t))
+					swapped = true
+				}
 				id := make([]byte, 20)
 				copy(id, fmt.Sprintf("-VF0001-c18inc%06d", npeer))
 				hs := append([]byte{19}, []byte("BitTorrent protocol")...)
@@ -431,7 +530,21 @@ func run(c caseSpec) (fail string, labels map[string]bool, hist []string) {
 					return what + ": tor.Server has not returned" + describe(), labels, hist
 				}
 				attached := len(tor.VerifPeers(t)) > before
-				if c.proxied {
+				if swapped {
+					// the handshake was answered on behalf of the torrent that existed
+					// when the connection came in; what counts is that a torrent that is
+					// proxied now does not end up with an incoming peer
+					if proxied && (serr == nil || attached) {
+						return fmt.Sprintf("%s: a torrent that became proxied during the handshake accepted the incoming connection (Server returned %v, attached %v)", what, serr, attached) + describe(), labels, hist
+					}
+					if proxied {
+						labels["incoming-refused: proxied during handshake"] = true
+					}
+					if !attached {
+						b.Close()
+						continue
+					}
+				} else if proxied {
 					if serr == nil || attached || n != 0 {
 						return fmt.Sprintf("%s: proxied torrent accepted an incoming connection (Server returned %v, replied %d bytes, attached %v)", what, serr, n, attached) + describe(), labels, hist
 					}
@@ -439,19 +552,28 @@ func run(c caseSpec) (fail string, labels map[string]bool, hist []string) {
 					b.Close()
 					continue
 				}
-				if serr != nil || !attached {
+				if !swapped && (serr != nil || !attached) {
 					return fmt.Sprintf("%s: unproxied torrent refused a correct incoming handshake: %v", what, serr) + describe(), labels, hist
 				}
 				labels["incoming-accepted"] = true
 				r = sim.Attach(b, sim.Caps{Fast: true, Extended: true, DHT: true})
 				sim.Cleanup(r.Close)
 			}
+			if s.A&8 != 0 {
+				// the peer has everything and never unchokes us: pieces are available,
+				// yet cannot be asked for
+				full := make([]byte, 1)
+				full[0] = 0xfc
+				r.Send(ref.Msg{Kind: ref.KBitfield, Data: full})
+				seeds = append(seeds, r)
+				labels["choked-seed-connected"] = true
+			}
 			sim.Settle()
 			// what the peer was told
 			for _, m := range r.Take() {
 				switch {
 				case m.Kind == ref.KPort:
-					if c.proxied {
+					if proxied {
 						return what + ": proxied torrent sent a Port message to a peer" + describe(), labels, hist
 					}
 					if m.Port != portUDP {
@@ -460,7 +582,7 @@ func run(c caseSpec) (fail string, labels map[string]bool, hist []string) {
 					labels["port-sent-unproxied"] = true
 				case m.Kind == ref.KExtended && m.X == ref.XHandshake:
 					hs := m.HS
-					if c.proxied {
+					if proxied {
 						if hs.V != nil || hs.P != nil || hs.IPv6 != nil || hs.IPv4 != nil {
 							return fmt.Sprintf("%s: proxied torrent's extended handshake reveals v=%v p=%v ipv6=%x", what, deref(hs.V), derefp(hs.P), hs.IPv6) + describe(), labels, hist
 						}
@@ -492,7 +614,7 @@ func run(c caseSpec) (fail string, labels map[string]bool, hist []string) {
 				}
 				if K.trackers {
 					labels["tracker-announce-when-enabled"] = true
-					if c.proxied {
+					if proxied {
 						labels["tracker-announce-proxied"] = true
 					}
 				} else {
